@@ -14,7 +14,7 @@ MANIFEST = {
     "category": "proof",
     "technique": "contract-based deductive verification by composition of relational contracts: the real model constructors and __call__ methods (ConvBlock, ResNet, DilResNet, UNet) are executed on x and g.x with every layer replaced by its contract (C06: ConvContract, C08: normalisation / nonlinearity / pooling); at every call site z3 proves that the layer receives the transformed input and that the contract's pre-conditions hold; the outputs are compared element-wise",
     "text": "For each enumerated architecture configuration (class, blocks, convolutions per block, downsamples, activation, normalisation, pre-activation order, bias mode, signatures incl. pseudo-types, torus flags) with SYMBOLIC depth, channel counts, spatial extents (compatible with the pooling) and filter counts, and for group elements g: the real wiring code (residual sums, skip concatenations, pooling / transposed-convolution options, channel arithmetic) feeds every layer with exactly the transformed input of the un-transformed run, all relational pre-conditions hold (unit stride, symmetric padding incl. the transposed convolution ((1,1),)*D with image dilation 2, accepted types), so model(g.x) == g.model(x) with the requested output types. Layer contracts are proved in C06 / C08 (or assumed there: max pooling, eigh).",
-    "note": "modular: relies on the layer contracts of C06, C08 (incl. their assumed parts) and inherits KNOWN FINDING KF-C08 (pseudo-scalars through normalisation); architectures enumerated (num_blocks, num_conv, num_downsamples <= 2); translations are covered by the bounded native stand-in only",
+    "note": "modular: relies on the layer contracts of C06, C08 (incl. their assumed parts) and inherits KNOWN FINDING KF-C08 (pseudo-scalars through normalisation); architectures enumerated (num_blocks, num_conv, num_downsamples <= 2); translations: own obligations by the same composition argument with a symbolic cyclic shift (multiples of the pooling factor for the U-Net)",
 }
 FUNCTIONS = ["models.handle_activation", "models.make_conv", "models.ConvBlock.__init__/__call__", "models.UNet.__init__/__call__", "models.ResNet.__init__/__call__",
              "models.DilResNet.__init__/__call__", "geometric.signature_union", "MultiImage.concat", "MultiImage.__add__", "MultiImage.copy",
@@ -66,7 +66,7 @@ def name_of(c):
 
 
 def jobs(tier):
-    out = [("gvc.props.c07", "ob_canary", {})]
+    out = [("gvc.props.c07", "ob_canary", {}), ("gvc.props.c07", "ob_translation_canary", {})]
     for c in configs(tier):
         D = c["D"]
         if D == 2:
@@ -75,6 +75,10 @@ def jobs(tier):
             gs = [9, 24, 33] if tier == "quick" else [1, 9, 17, 24, 33, 40]
         for gi in gs:
             out.append(("gvc.props.c07", "ob_model", dict(cfg=c, gi=gi)))
+    # translations: every configuration on a fully toroidal image
+    for c in configs(tier):
+        if all(c.get("flags", [True] * c["D"])):
+            out.append(("gvc.props.c07", "ob_translation", dict(cfg=c)))
     out += leaf_contract_jobs()
     return out
 
@@ -90,7 +94,44 @@ def leaf_contract_jobs():
     out += dep_jobs("gvc.props.c08", lambda fn, kw: fn.startswith("ob_") and kw.get("D") == 2 and kw.get("gi") in (1, 3)
                     and not (fn == "ob_vn" and kw["k"] == 2))
     out += dep_jobs("gvc.props.c02", lambda fn, kw: fn == "ob_entry" and kw["D"] == 2)
+    # translation contracts of the leaves
+    out += dep_jobs("gvc.props.c06", lambda fn, kw: fn == "ob_translation" and kw["D"] == 2 and (kw.get("upsample") or kw["use_bias"] is False))
+    out += dep_jobs("gvc.props.c08", lambda fn, kw: fn == "ob_translation" and kw["D"] == 2)
     return out
+
+
+def ob_translation(cfg):
+    """on toroidal inputs the network commutes with cyclic translations by (symbolic) multiples of its total pooling factor
+    (1 for the ResNets): the same composition argument with T instead of g; the leaf translation contracts are owned by
+    C06 (ConvContract incl. the transposed form) and C08 (normalisation, nonlinearity, pooling)"""
+    D = cfg["D"]
+    arr.ENUM_SMALL[0] = 3
+    nm = f"C07/{name_of(cfg)}"
+
+    def body():
+        S, y0, yt, info = nets.run_model(cfg, None, shift=True)
+        bad = [p for p in S.problems if p[0] in ("pre", "pre-rel", "rel")]
+        if bad:
+            return "refuted", f"{bad[0][0]}: {bad[0][1]}", None
+        und = [p for p in S.problems if p[0] == "undecided"]
+        if und:
+            return "undecided", und[0][1], None
+        if list(y0.keys()) != list(yt.keys()):
+            return "refuted", f"output key lists differ: {list(y0.keys())} vs {list(yt.keys())}", None
+        return cmp_blocks(yt, {t: info["T"](y0[t], t) for t in y0.keys()}, D, info["flags"], list(y0.keys()), "model(T x) vs T model(x)")
+
+    o = guard(nm + "/ensures:commutes-with-cyclic-translations-by-composition", "ensures", body, dict(cfg))
+    o["replay"] = dict(scenario="model", cfg=cfg, g=np.eye(D, dtype=int).tolist(), shift=True)
+    return [o]
+
+
+def ob_translation_canary():
+    """a network on an image with a non-toroidal axis has no translation contract: the obligation must fail"""
+    cfg = dict(arch="ConvBlock", D=2, sin=[[0, 0], [1, 0]], sout=[[1, 0], [0, 0]], preact=False, group_norm=False, activation="relu", flags=[True, False])
+    o = ob_translation(cfg)[0]
+    o["kind"] = "canary"
+    o["name"] = "C07/ConvBlock,flags=[True, False]/canary:translation-on-a-non-toroidal-axis"
+    return [o]
 
 
 def ob_canary():
